@@ -134,9 +134,11 @@ async def delete_from_cache(
     queue = registry.kill_resource(resource=resource)
     registry.deregister(deregisterer=resource, deregistered_at=deleted_at)
 
-    # This shouldn't happen, just an extra check
-    if resource in _REPREPARE_TASKS:
-        _REPREPARE_TASKS[resource].cancel()
+    # Forget the re-preparer now, so that offering this resource again (even
+    # before the cancelled task has finished) starts a new one.
+    reprepare_task = _REPREPARE_TASKS.pop(resource, None)
+    if reprepare_task:
+        reprepare_task.cancel()
 
     match queue:
         case None:
@@ -271,8 +273,15 @@ _REPREPARE_TASKS: dict[registry.Resource, asyncio.Task] = {}
 
 def _deletor(resource):
     def do_delete(task: asyncio.Task):
-        del _REPREPARE_TASKS[resource]
-        registry.deregister(resource, time.monotonic())
+        # Only clean up after the resource's current re-preparer. If the
+        # resource was deleted (and possibly offered again) since this task
+        # started, the registration no longer belongs to this task.
+        if _REPREPARE_TASKS.get(resource) is task:
+            del _REPREPARE_TASKS[resource]
+            registry.deregister(resource, time.monotonic())
+
+        if task.cancelled():
+            return
 
         task_exception = task.exception()
         if task_exception:
